@@ -87,8 +87,19 @@ pub fn key() -> impl Strategy<Value = Key> {
 }
 
 impl Key {
+    /// The library's key object, obtained by one of four routes chosen by the key itself (raw bytes, hex text,
+    /// the reference WIF string, a WIF round trip) so that every property using keys also covers keys that were parsed.
     pub fn lib(&self) -> bsv::PrivateKey {
-        bsv::PrivateKey::from_bytes(&self.d.be32()).expect("scalar in range").compress_public_key(self.compressed)
+        let b = self.d.be32();
+        match (b[31] >> 1) % 4 {
+            0 => bsv::PrivateKey::from_bytes(&b).expect("scalar in range").compress_public_key(self.compressed),
+            1 => bsv::PrivateKey::from_hex(&hex::encode(b)).expect("scalar in range").compress_public_key(self.compressed),
+            2 => bsv::PrivateKey::from_wif(&crate::refimpl::codec::wif_encode(0x80, &b, self.compressed)).expect("reference WIF"),
+            _ => {
+                let k = bsv::PrivateKey::from_bytes(&b).expect("scalar in range").compress_public_key(self.compressed);
+                bsv::PrivateKey::from_wif(&k.to_wif().expect("to_wif")).expect("own WIF")
+            }
+        }
     }
     pub fn point(&self) -> secp::Point {
         secp::pubkey(&self.d.value())
